@@ -421,4 +421,15 @@ def cases():
     #     so that two builders do not both "produce" the first word of the object path
     mods = [{"name": "odd", "sources": ["my file.c", "a:b.c", "c$ d.c"], "srcdir": "dir with blank"}]
     out.append((base(mods, [{"name": "app", "sources": ["main prog.c"], "depends": ["odd"]}]), {}))
+    # 56: '-name' under selects: / uses: removes the inherited plain, optional and conditional entries (written
+    #     without depends:, so that the removal is a purely textual operation the expansion of C17 can write out)
+    f = base([{"name": "logging", "sources": ["log.c"], "env": {"export": {"CFLAGS": ["-DWITH_LOGGING"]}}}, {"name": "tls", "sources": ["tls.c"], "env": {"global": {"CFLAGS": ["-DWITH_TLS"]}}},
+              {"name": "net", "sources": ["net.c"], "selects": ["-tls", "-logging"]}, {"name": "core", "sources": ["core.c"], "env": {"export": {"CFLAGS": ["-DCORE"]}}, "selects": ["-tls", "-logging"], "uses": ["-core"]},
+              {"name": "quiet", "sources": ["quiet.c"], "selects": ["-logging", "-tls"]},
+              {"name": "half", "sources": ["half.c"], "selects": ["-tls"], "uses": ["-core"]},
+              {"name": "loud", "sources": ["loud.c"]}],
+             [{"name": "app", "sources": ["main.c"], "selects": ["net", "quiet", "half", "loud"]},
+              {"name": "app2", "sources": ["main.c"], "selects": ["net", "quiet", "-core"]}],
+             defaults={"module": {"selects": ["?logging", {"net": ["tls"]}], "uses": ["core", "?logging"]}, "app": {"selects": ["core"]}})
+    out.append((f, {}))
     return out
